@@ -96,7 +96,16 @@ func vFdLifecycle(kind string, rnd *rand.Rand, rec *vFdRec) {
 			l.Close()
 			return
 		}
-		ln.Close()
+		switch rnd.Intn(3) {
+		case 0: // the application closes its own listener first (e.g. a deferred Close running before Shutdown): the duplicate is still netpoll's
+			l.Close()
+			ln.Close()
+		case 1:
+			ln.Close()
+			l.Close()
+		default:
+			ln.Close()
+		}
 	case "serve":
 		ln, err := CreateListener("tcp", "127.0.0.1:0")
 		if err != nil {
